@@ -127,7 +127,7 @@ class Lit:
     PURE = {'range': range, 'len': len, 'tuple': tuple, 'list': list, 'dict': dict, 'set': set, 'frozenset': frozenset,
             'min': min, 'max': max, 'sum': sum, 'abs': abs, 'int': int, 'str': str, 'bool': bool, 'chr': chr, 'ord': ord,
             'bytes': bytes, 'bytearray': bytearray, 'sorted': sorted, 'enumerate': enumerate, 'zip': zip, 'any': any, 'all': all,
-            'reversed': reversed, 'divmod': divmod, 'round': round, 'next': next, 'iter': iter, 'repr': repr, 'hex': hex}
+            'reversed': reversed, 'divmod': divmod, 'round': round, 'next': next, 'iter': iter, 'repr': repr, 'hex': hex, 'callable': callable, 'id': id, 'bin': bin, 'map': map, 'filter': filter}
 
     def __init__(self, repo, modname, env=None, opaque=None):
         self.repo = repo
@@ -243,7 +243,7 @@ class Lit:
                     args = [self.ev(a) for a in n.args]
                     kw = {k.arg: self.ev(k.value) for k in n.keywords}
                     return getattr(base, n.func.attr)(*args, **kw)
-            if isinstance(n.func, ast.Attribute) and n.func.attr in ('append', 'extend', 'pop', 'clear', 'insert', 'setdefault', 'update', 'write', 'add', 'discard', 'remove', 'copy'):
+            if isinstance(n.func, ast.Attribute) and n.func.attr in ('append', 'extend', 'pop', 'clear', 'insert', 'setdefault', 'update', 'write', 'add', 'discard', 'remove', 'copy', 'reverse', 'sort', 'popitem'):
                 try:
                     base = self.ev(n.func.value)
                 except NotLiteral:
